@@ -42,7 +42,7 @@ pub fn world_by_name(name: &str) -> (World, Store) {
         "D" => vec![spec_b9(), spec_bf(1, 1)],
         _ => panic!("unknown world {name}"),
     };
-    build_world(&WorldSpec::new(&format!("H{name}"), banks, &["u0", "u1", "seeder"]))
+    build_world(&WorldSpec::new(&format!("H{name}"), banks, &["u0", "u1", "seeder", "u3"]))
 }
 
 pub fn whole(w: &World, b: usize, n: u64) -> u64 {
@@ -165,6 +165,23 @@ pub fn standard_roots(w: &World, s0: &Store, with_forged: bool) -> Vec<(String, 
         mint_to(&mut r3i, &w.mint_auth, &w.banks[1].mint, &w.banks[1].iv, w.banks[1].t22, bad / 3 + 1);
         roots.push(("R3i".to_string(), mk(r3i, false)));
     }
+
+    // R6: bank 0 accrues (u3 borrows it against bank 1) while u1 holds an *empty but active* balance
+    // in bank 0 (deposit 1, withdraw 1): close_balance is one step away
+    let mut r6 = r0.clone();
+    do_all(
+        w,
+        &mut r6,
+        &[
+            Action::Deposit { u: 3, b: 1, amt: dollar_amount(w, &r0, 1, 100_000), up_to_limit: None },
+            Action::Borrow { u: 3, b: 0, amt: dollar_amount(w, &r0, 0, 20_000) },
+            Action::Advance { dt: 86_400 * 100 },
+            Action::Deposit { u: 1, b: 0, amt: 1, up_to_limit: None },
+            Action::Withdraw { u: 1, b: 0, amt: 1, all: false },
+        ],
+        "R6",
+    );
+    roots.push(("R6".to_string(), mk(r6, false)));
 
     if with_forged {
         // R4: forged fee buckets: fractional, >1, and larger than the vault
